@@ -811,8 +811,8 @@ impl Property for C09 {
     }
     fn budget(tier: Tier) -> u64 {
         match tier {
-            Tier::Quick => 400_000,
-            Tier::Thorough => 12_000_000,
+            Tier::Quick => 250_000,
+            Tier::Thorough => 6_000_000,
         }
     }
 
